@@ -145,8 +145,24 @@ def case_solve(ctx, rng):
         cs = rng.sample(gen.POOL[sym], rng.randint(1, min(3, len(gen.POOL[sym]))))
         q = R.identity(sym)
     r_ = sr.BlockIndex({c: d_ for c in cs}, dual=rng.random() < 0.5)
-    a = gen.make_array(sr, rng, sym, [r_, gen.conj_index(sr, r_)], charge=q, values=gen.Values(rng, "gauss", dt_), sparsity=0.0)
     feats = {"abelian", "direct"} | ({"complex"} if dt_ == "complex128" else set())
+    if sym in ("U1", "U1U1", "Z4") and rng.random() < 0.5:
+        # operator with a non-zero total charge: the column table is the row table shifted by
+        # the charge, so that every row charge meets exactly one column charge (square blocks)
+        q = rng.choice([c for c in gen.POOL[sym] if c != R.identity(sym)])
+        dual_c = rng.random() < 0.5
+        cm = {}
+        for c in cs:
+            t = R.comb(sym, [q, R.neg(sym, R.signed(sym, c, r_.dual))])  # signed column charge
+            cm[R.neg(sym, t) if dual_c else t] = d_
+        col = sr.BlockIndex(dict(sorted(cm.items())), dual=dual_c)
+        a = gen.make_array(sr, rng, sym, [r_, col], charge=q, values=gen.Values(rng, "gauss", dt_), sparsity=0.0)
+        feats.add("charged-operator")
+        feats.add("operator-layout-" + ("-" if r_.dual else "+") + ("-" if dual_c else "+"))
+    else:
+        a = gen.make_array(sr, rng, sym, [r_, gen.conj_index(sr, r_)], charge=q, values=gen.Values(rng, "gauss", dt_), sparsity=0.0)
+        if q != R.identity(sym):
+            feats.add("charged-operator")
     if not a.blocks:
         return
     for s, b in list(a.blocks.items()):
@@ -187,6 +203,14 @@ def case_solve(ctx, rng):
         return
     if not np.allclose(got, exp, atol=1e-9 * (float(np.abs(exp).max(initial=0)) or 1.0), rtol=0):
         ctx.violation("solve-value", f"solution differs from numpy.linalg.solve on the dense system, max|diff| {cmp.maxdiff(got, exp)}", wit)
+        return
+    # the solution is a valid array of total charge  charge(b) - charge(a)
+    from symv.audit import audit
+
+    errs = audit(x)
+    want_q = R.comb(sym, [b.charge, R.neg(sym, a.charge)])
+    if errs or x.charge != want_q:
+        ctx.violation("solve-invalid-solution", f"solution charge {x.charge!r} (expected {want_q!r}); {'; '.join(errs[:2])}", wit)
         return
     if len(a.blocks) >= 2:
         ctx.nontrivial(("solve", struct_sig(a), struct_sig(b)))
